@@ -73,18 +73,19 @@ type Thread struct {
 }
 
 type Exec struct {
-	eng        *Engine
-	h          *HarnessRun
-	f          *TermFactory
-	s          *Solver
-	globals    map[*ssa.Global]*Value
-	stdGlobals map[*ssa.Global]*Value
-	decodeSet  bool // zzverif.DecodesTo: what the next json.Decoder.Decode yields
-	decodeVal  Value
-	decodeErr  Iface
-	facts      map[*Term]bool // conditions decided on the current path (syntactic implied-branch cache)
-	factHits   int
-	uniq       map[string]*Value // unique.Make interning table (lives as long as stdGlobals)
+	eng         *Engine
+	h           *HarnessRun
+	f           *TermFactory
+	s           *Solver
+	globals     map[*ssa.Global]*Value
+	stdGlobals  map[*ssa.Global]*Value
+	globalSnaps map[string]string // zzverif.SnapshotGlobals
+	decodeSet   bool              // zzverif.DecodesTo: what the next json.Decoder.Decode yields
+	decodeVal   Value
+	decodeErr   Iface
+	facts       map[*Term]bool // conditions decided on the current path (syntactic implied-branch cache)
+	factHits    int
+	uniq        map[string]*Value // unique.Make interning table (lives as long as stdGlobals)
 
 	trace    []traceEntry
 	pos      int
@@ -712,6 +713,7 @@ func (x *Exec) runPath(fn *ssa.Function) {
 	x.globals = map[*ssa.Global]*Value{}
 	x.pos = 0
 	x.facts = nil
+	x.globalSnaps = nil
 	x.decodeSet, x.decodeVal, x.decodeErr = false, nil, Iface{}
 	x.ndlog = nil
 	x.ndCount = 0
